@@ -648,6 +648,29 @@ def cls_loop_offset_precedence(case):
     return bool(found)
 
 
+def cls_unlowered_section_scalar(case):
+    """After PSyAD's documented pre-processing an assignment to a section
+    of an active array is still in array notation (it could not be turned
+    into loops, e.g. because of a subscript like pa(k + 1)) and a term of
+    its right-hand side is a scalar-valued active reference other than
+    the LHS: b(2:n) = pa(k + 1) * s."""
+    from psyclone.psyad.transformations.preprocess import preprocess_trans
+    from psyclone.psyir.nodes import Assignment, Range, Reference, Routine
+    psy.reset_state()
+    tree = psy.read(case["source"])
+    preprocess_trans(tree, list(case["active"]))
+    routine = tree.walk(Routine)[0]
+    active = _active_syms(routine, case)
+    for asg in tree.walk(Assignment):
+        if not asg.is_array_assignment or asg.lhs.symbol not in active:
+            continue
+        for ref in asg.rhs.walk(Reference):
+            if ref.symbol in active and not ref.walk(Range) and \
+                    not ref.ancestor(Range):
+                return True
+    return False
+
+
 def cls_harness_nonreal_arg(case):
     """Harness failures of kernels that have an integer or logical scalar
     argument which does not dimension an array argument (the harness
@@ -674,7 +697,8 @@ def cls_harness_nonreal_arg(case):
 
 def _exact_only(fun):
     def inner(case):
-        if not str(case.get("bucket", "")).startswith("exact:"):
+        # everything but the harness generator's own compile errors
+        if str(case.get("bucket", "")) == "harness:compile-harness":
             return False
         return fun(case)
     inner.__doc__ = fun.__doc__
@@ -687,6 +711,7 @@ CLASSIFIERS = {
     "section_overlap": _exact_only(cls_section_overlap),
     "zero_trip_reversed": _exact_only(cls_zero_trip_reversed),
     "loop_offset_precedence": _exact_only(cls_loop_offset_precedence),
+    "unlowered_section_scalar": _exact_only(cls_unlowered_section_scalar),
     "harness_nonreal_arg": cls_harness_nonreal_arg,
 }
 
@@ -756,7 +781,7 @@ def run(ctx):
                 max_examples=ctx.scale(1600, 24000),
                 key=lambda kern: [kern.source,
                                   [a.get("data") for a in kern.args]],
-                shrink_budget=150)
+                shrink_budget=40 if ctx.quick else 150)
     finally:
         shutil.rmtree(workdir, ignore_errors=True)
 
